@@ -15,13 +15,12 @@ whose program steps follow the lifecycle automaton (`pcRun L .idle pre = some pc
 about a delivery in the gap after `pre`, and about arbitrary continuations `post`.  So "all programs and
 all schedules" is `∀ pre post`.  Both meanings of `signal(2)` (`Mode.bsd`, `Mode.sysv`) are covered.
 
-History.  The originally pinned code violated the property in three windows.  Two were repaired in ampl/mp
-(208050e constructor order, 47cb42b `SetHandler` order); the model carries the store order as a parameter
-(`Layout`), `Layout.current` is the order the code has now, and the MAIN THEOREMS section states the strict
-property for it.  The statements valid for *any* store order (`C15_anyorder_*`, used in the proofs) and the proved
-counterexamples for the old order (`C15_oldorder_counterexample_*`) are kept as the record of the two fixed findings.
-Still open: the destructor's `stop_ = 1` forgets one of two recorded interrupts, so a third interrupt arriving after
-it does not terminate the process (`C15_third_exits_partial`, `C15_counterexample_third_no_exit_across_teardown`).
+History.  The originally pinned code violated the property in three windows, all found by this check and repaired in
+ampl/mp (208050e constructor order, 47cb42b `SetHandler` order, 27c8b2e destructor no longer resets the count); the
+model carries the store order as a parameter (`Layout`), `Layout.current` is the order the code has now, and the MAIN
+THEOREMS section states the strict property for it at full strength.  The statements valid for *any* store order
+(`C15_anyorder_*`, `C15_order_*`, used in the proofs) and the proved counterexamples for the old orders
+(`C15_oldorder_counterexample_*`) are kept as the record of the three fixed findings.  No finding is open.
 -/
 namespace MpVerif.C15
 
@@ -47,7 +46,7 @@ open MpVerif.Gen in
 /-- `SetHandler(h, d)`: the three stores in source order, for every callback and data -/
 theorem C15_gen_setHandler (h d : Nat) :
     Src.collect (Src.regMicro h d) Signal.setHandler = some (regSteps Layout.current h d) := by
-  simp [Signal.setHandler, Src.collect, Src.regMicro, regSteps, Layout.current, Layout.fixed]
+  simp [Signal.setHandler, Src.collect, Src.regMicro, regSteps, Layout.current, Layout.repaired]
 
 open MpVerif.Gen in
 /-- `HandleSigInt`: for every state in which the handler is the disposition of `g`, every `signal(2)` semantics
@@ -94,7 +93,7 @@ theorem C15_gen_callouts :
        (.cSize, "sh.ctor.after_msg_size"), (.cStop0, "sh.ctor.after_stop0"), (.cSigInt, "sh.ctor.after_signal_int"),
        (.cSigTerm, "sh.ctor.after_signal_term")] ∧
     Src.named Src.dtorMicro Signal.dtor [] = some
-      [(.dIntr, "sh.dtor.after_set_interrupter"), (.dStop1, "sh.dtor.after_stop1"), (.dH0, "sh.dtor.after_handler0"),
+      [(.dIntr, "sh.dtor.after_set_interrupter"), (.dH0, "sh.dtor.after_handler0"),
        (.dSize0, "sh.dtor.after_msg_size0")] ∧
     Src.named (Src.regMicro 1 2) Signal.setHandler [] = some
       [(.setH 0, "sh.set.after_handler_clear"), (.setD 2, "sh.set.after_data"), (.setH 1, "sh.set.after_handler")] := by
@@ -295,10 +294,11 @@ theorem C15_oldorder_counterexample_early_exit_ctor_window :
     sigCount evs = 2 ∧ (run .bsd init evs).1.halted = some .exit1 := by
   decide
 
-/-- teardown: `C W D W` with two SIGINTs during solving and one after the destructor: the destructor's
-    `stop_ = 1` forgets one of them, the third interrupt does not terminate the process. -/
-theorem C15_counterexample_third_no_exit_across_teardown :
-    let evs := schedule (expandProg Layout.current [.ctor, .work, .dtor, .work]) 0 [(8, .int), (8, .int), (13, .int)]
+/-- teardown, OLD destructor (`stop_ = 1` stored, before ampl/mp 27c8b2e): `C W D W` with two SIGINTs during solving
+    and one after the destructor: the destructor's store forgets one of them, the third interrupt does not terminate
+    the process.  (Fixed finding C15-across-teardown; the same schedule is a regression case of the check.) -/
+theorem C15_oldorder_counterexample_third_no_exit_across_teardown :
+    let evs := schedule (expandProg Layout.fixed [.ctor, .work, .dtor, .work]) 0 [(8, .int), (8, .int), (13, .int)]
     sigCount evs = 3 ∧ (run .bsd init evs).1.halted = none ∧ (run .bsd init evs).1.stop = 2 := by
   decide
 
@@ -619,19 +619,26 @@ theorem C15_pairing (md : Mode) (pre : List Ev) (g : Sig) (pc : PC)
     pc.curReg = some (h, d) :=
   C15_order_pairing Layout.current rfl md pre g pc hpc hrun h d hcb
 
-/-
-Full-strength statement of the third-interrupt clause (still FALSE, see
-`C15_counterexample_third_no_exit_across_teardown`: the destructor's `stop_ = 1` forgets one of two recorded
-interrupts): the same as `C15_third_exits_partial` without `hnd`.
--/
-
-/-- **A third interrupt terminates the process** (partial: the three signals arrive before the destructor begins). -/
-theorem C15_third_exits_partial (md : Mode) (pre post : List Ev) (pc pc' : PC)
-    (hpc : pcRun Layout.current .idle pre = some pc) (hin : pc.installedInt = true)
-    (hpost : pcRun Layout.current pc post = some pc') (hnd : ∀ e ∈ post, isDtorStep e = false)
-    (h3 : 3 ≤ sigCount post) :
+/-- **A third interrupt terminates the process** — full strength.  After any well-formed history, three signals
+    delivered anywhere in any well-formed continuation (rest of the constructor, registrations between their stores,
+    solving, reporting, teardown and after it) terminate the process, as long as no *new* handler object's constructor
+    resets the count in between.  (A signal that finds no handler installed terminates the process by the default
+    action, hence no installation hypothesis.) -/
+theorem C15_third_exits (md : Mode) (pre post : List Ev) (pc pc' : PC)
+    (hpc : pcRun Layout.current .idle pre = some pc) (hpost : pcRun Layout.current pc post = some pc')
+    (hno : ∀ e ∈ post, e ≠ .step .cStop0) (h3 : 3 ≤ sigCount post) :
     (run md init (pre ++ post)).1.halted ≠ none :=
-  C15_order_third_exits Layout.current rfl md pre post pc pc' hpc hin hpost hnd h3
+  C15_order_third_exits_full Layout.current rfl md pre post pc pc' hpc hpost hno h3
+
+/-- regression: the failing history of the fixed finding C15-across-teardown (two SIGINTs during solving, one after the
+    destructor) now terminates the process, whether the third signal comes right after the destructor or after the
+    last step -/
+example :
+    let prog := [Macro.ctor, .work, .dtor, .work]
+    wfProg Layout.current prog = true ∧
+    (run .bsd init (schedule (expandProg Layout.current prog) 0 [(8, .int), (8, .int), (12, .int)])).1.halted = some .exit1 ∧
+    (run .bsd init (schedule (expandProg Layout.current prog) 0 [(8, .int), (8, .int), (13, .int)])).1.halted = some .exit1 := by
+  decide
 
 /-- **The first two interrupts never `_exit`**, counted from the constructor's `stop_ = 0` (which precedes the
     `signal()` calls). -/
@@ -722,12 +729,13 @@ example : (deliver .bsd (run .bsd init (exPre ++ exPost)).1 .int).2.filter
       (fun o => match o with | .cb _ _ => true | _ => false) = [Obs.cb 1 2] :=
   C15_callback_invoked Layout.current .bsd (exPre ++ exPost) .int 1 2 (by decide) (by decide) (by decide) (by decide)
 
-/-- `C15_third_exits_partial`: three signals spread over the constructor tail, the registration and the solve step -/
+/-- `C15_third_exits`: three signals spread over the constructor tail, a registration and the teardown -/
 example :
     let pre := (ctorSteps Layout.current).take 6 |>.map Ev.step
-    let post := [.sig .int, .step .cSigTerm, .step (.setH 0), .sig .term, .step (.setD 2), .step (.setH 1), .step .work, .sig .int]
+    let post := [.sig .int, .step .cSigTerm, .step (.setH 0), .sig .term, .step (.setD 2), .step (.setH 1), .step .work,
+                 .step .dIntr, .step .dH0, .sig .int, .step .dSize0]
     (run .bsd init (pre ++ post)).1.halted ≠ none :=
-  C15_third_exits_partial .bsd _ _ .cS1 (.live (some (1, 2))) (by decide) (by decide) (by decide) (by decide) (by decide)
+  C15_third_exits .bsd _ _ .cS1 .dZ (by decide) (by decide) (by decide) (by decide)
 
 /-- `C15_no_early_exit`: two signals, one of them before the `signal()` calls of a *second* handler object (handled by
     the disposition the first object left installed) -/
@@ -745,7 +753,7 @@ example :
     pcRun Layout.current .idle pre = some .idle ∧ (run .bsd init pre).1.halted = none ∧
     (deliver .bsd (run .bsd init pre).1 .int).2 = [.brk 0 true, .rearm .int] := by decide
 
-example : Obs.cb 1 2 ∉ (deliver .bsd (run .bsd init (exPre ++ exPost ++ ((dtorSteps Layout.current).take 3).map Ev.step)).1 .int).2 :=
+example : Obs.cb 1 2 ∉ (deliver .bsd (run .bsd init (exPre ++ exPost ++ ((dtorSteps Layout.current).take 2).map Ev.step)).1 .int).2 :=
   C15_after_teardown Layout.current .bsd _ .int .dH (by decide) (by decide) (by decide) 1 2
 
 /-- `C15_gen_handleSigInt` in a state where everything happens: sysv semantics, failing stdout, a registered
@@ -780,9 +788,9 @@ example :
     `C R(1,1) D N(2,2)` a signal invokes no callback -/
 example :
     let prog := [Macro.ctor, .reg 1 1, .dtor, .nreg 2 2, .work]
-    let evs := schedule (expandProg Layout.current prog) 0 [(16, .int), (17, .int)]
+    let evs := schedule (expandProg Layout.current prog) 0 [(15, .int), (16, .int)]
     wfProg Layout.current prog = true ∧
-    (run .bsd init evs).2 = [.brk 0 true, .rearm .int, .query false, .brk 0 true, .exit1] := by decide
+    (run .bsd init evs).2 = [.brk 0 true, .rearm .int, .query false, .brk 0 true, .rearm .int] := by decide
 
 /-- before installation the default action kills the process -/
 example : (run .bsd init (schedule (expandProg .pinned [.ctor]) 0 [(3, .term)])).1.halted = some (.killed .term) := by decide
